@@ -25,11 +25,24 @@ def _first(v):
     return v.items[0] if isinstance(v, seqdom.Tup) and v.items else v
 
 
-def variants(fi):
-    """the ways the reference records reach the routine: as its second argument, or (when it has such a parameter) as a list of channel
-    numbers to be selected from the first"""
+def variants(fi, prog=None):
+    """the ways the reference records reach the routine: as its second argument (a data matrix), as a list of channel numbers in a
+    parameter of its own (`ref_ind`), or - when a caller in the package hands its second parameter the list itself - as a list of
+    channel numbers in the place of the data matrix"""
     pos, kwo, _, _ = astq.params_of(fi.node)
-    return ("yref", "refind") if "ref_ind" in pos + kwo else ("yref",)
+    out = ["yref"] + (["refind"] if "ref_ind" in pos + kwo else [])
+    if prog is not None and len(pos) > 1:
+        from ..effects import _callers
+        for g, c in _callers(prog, getattr(fi, "fi", fi)):
+            m_, errs = astq.bind_args(fi.node, c)
+            a = m_.get(pos[1])
+            if not isinstance(a, ast.AST):
+                continue
+            x = astq.expr_at(g, c, a)
+            alts = [x.body, x.orelse] if isinstance(x, ast.IfExp) else [x]
+            if any(isinstance(y, (ast.Name, ast.Attribute)) and "ref_ind" in astq.src(y) for y in alts) and "yrefidx" not in out:
+                out.append("yrefidx")
+    return tuple(out)
 
 
 def analyse(prog, fi, method, pY, pR, pbr, pm, variant="yref"):
@@ -37,7 +50,11 @@ def analyse(prog, fi, method, pY, pR, pbr, pm, variant="yref"):
     from .. import hankdom, seqdom
     has_ri = "ref_ind" in astq.params_of(fi.node)[0] + astq.params_of(fi.node)[1]
     extra, consts = {}, {}
-    if variant == "refind":
+    if variant == "yrefidx":
+        it = hankdom.Interp(prog, roles={pY: ("rec", "all"), pR: ("refidx",)})
+        if has_ri:
+            extra, consts = {"ref_ind": seqdom.K(None)}, {"ref_ind": None}
+    elif variant == "refind":
         it = hankdom.Interp(prog, roles={pY: ("rec", "all"), "ref_ind": ("refidx",)})
         extra, consts = {pR: seqdom.K(None)}, {pR: None}
     else:
@@ -76,7 +93,7 @@ def hankel_rules(prog, run):
     pY, pR, pbr, pm = pos[0], pos[1], pos[2], pos[3]
     br = P.s(pbr)
     Ndat = P.s("Ndat")
-    names = {"all": pY, "ref": pR}
+    names = {"all": pY, "ref": pR, "ref-asc": "the reference channels in ascending channel order (selected with a boolean mask made from the list: its listed order is lost)"}
 
     def ob(rule, role, ok, detail, witness="", node=None, config=""):
         run.ob(rule, fi.qual, role, ok, detail, witness=witness or detail[:80], file=f, node=node, config=config)
@@ -91,8 +108,8 @@ def hankel_rules(prog, run):
 
     # ------------------------------------------------------------ cov_mm and dat
     results = {}
-    for method, variant in [(m_, v_) for m_ in ("cov_mm", "dat") for v_ in variants(fi)]:
-        cfg = f"method={method}" + (",references by index" if variant == "refind" else "")
+    for method, variant in [(m_, v_) for m_ in ("cov_mm", "dat") for v_ in variants(fi, prog)]:
+        cfg = f"method={method}" + (",references by index" if variant == "refind" else ",reference list in place of the data" if variant == "yrefidx" else "")
         hs, it = analyse(prog, fi, method, pY, pR, pbr, pm, variant)
         for enode, etxt in it.errors:
             ob("R-lag", "structure: block rows keep the channel order", False, f"{cfg}: {etxt}", witness=etxt[:80], node=enode, config=cfg)
